@@ -4,9 +4,15 @@ set -eu
 cd "$(dirname "$0")"
 export VERIF_ROOT="$(pwd)"
 # the tree under test: /repo unless VERIF_REPO says otherwise (scratch worktrees for seeded changes)
-ln -sfn "${VERIF_REPO:-/repo}" "$VERIF_ROOT/.repo"
+REPO_UNDER_TEST="${VERIF_REPO:-/repo}"
+ln -sfn "$REPO_UNDER_TEST" "$VERIF_ROOT/.repo"
+# cargo decides staleness by mtime: a different tree behind the same symlink would not trigger a rebuild,
+# so every tree gets its own build directories
+if [ "$REPO_UNDER_TEST" = /repo ]; then SFX=""; else SFX="-$(printf %s "$REPO_UNDER_TEST" | md5sum | cut -c1-8)"; fi
+export VERIF_TARGET="$VERIF_ROOT/target$SFX"
+export VERIF_SHUTTLE_BIN="$VERIF_ROOT/target-shuttle$SFX/release/tfbshuttle"
 export CARGO_NET_OFFLINE=true
 export RUSTFLAGS="--cfg bigtools_verif"
-( cd sim && CARGO_TARGET_DIR="$VERIF_ROOT/target" cargo build --release --offline --bins )
-( export RUSTFLAGS="--cfg bigtools_verif --cfg bigtools_verif_shuttle"; cd tfbshuttle && CARGO_TARGET_DIR="$VERIF_ROOT/target-shuttle" cargo build --release --offline )
+( cd sim && CARGO_TARGET_DIR="$VERIF_TARGET" cargo build --release --offline --bins )
+( export RUSTFLAGS="--cfg bigtools_verif --cfg bigtools_verif_shuttle"; cd tfbshuttle && CARGO_TARGET_DIR="$VERIF_ROOT/target-shuttle$SFX" cargo build --release --offline )
 echo "setup ok"
